@@ -5,21 +5,21 @@ claimed = json.load(open('/verif/claimed.json'))
 texts = {
  "C01": ("exploration", "Seeded search over switch scenarios with the real performSwitchover; invariant evaluated at every promotion event against ground-truth GTID sets and read_only flags of the fake servers.", "7/C01"),
  "C02": ("exploration", "Seeded search over single-fault scenarios on N real daemons; ack-linearity monitor at every client acknowledgement + canonical final state and no acknowledged loss after heal+bound.", "7/C02"),
- "C03": ("exploration", "Real zkDCS + real go-zookeeper clients against fakezk under connection faults (ownership timeline vs every 'true'), plus act-under-lock monitors in cluster runs.", "7/C03"),
- "C04": ("exploration", "Membership transitions with the manager crashed/failed at sampled call boundaries; invariants (a)/(b) before/after every manager iteration on ground truth.", "7/C04"),
+ "C03": ("exploration", "Real zkDCS + real go-zookeeper clients against fakezk under connection faults (server-side ownership timeline vs every 'true', foreign release), plus act-under-lock and new-session-write monitors in cluster runs (switch requests with faults; manager cut from ZooKeeper at every call boundary of a switchover).", "7/C03, 15.2"),
+ "C04": ("exploration", "Membership transitions with the manager crashed, one call failing or the master dying at sampled call boundaries of the reacting iteration, plus switchovers that fail/are rejected; invariants (a)/(b) before/after every manager iteration on ground truth, membership rules for every published list, eviction guard.", "7/C04, 15.2"),
  "C05": ("exploration", "Reference gate predicate (written from the property text) evaluated at every creation of switch{cause:auto} on what the manager was told.", "7/C05"),
  "C06": ("exploration", "History check over all writes of switch/last_switch/last_rejected_switch under long-failing attempts, aborts and concurrent initiators.", "7/C06"),
  "C07": ("fault_enumeration", "Crash after/before each external call of the managing incarnation (enumerated from a pilot run per scenario), final-state oracle after the successor quiesces.", "7/C07"),
  "C08": ("exploration", "Reference decision table for the Lost state vs statements per Lost iteration over a grid of roles/replica conditions.", "7/C08"),
- "C09": ("exploration", "No-effective-change monitor in the acknowledged maintenance window + leave oracle, through the real CLI.", "7/C09"),
+ "C09": ("exploration", "Real CLI enter/leave (full and light) with daemon restarts, ZooKeeper outages, operator SQL and racing requests; no-effective-change monitor over the acknowledged interval (by issue time and awareness of the issuing host), failover suppression in light mode, leave conditions and emergency marker.", "7/C09, 15.2"),
  "C10": ("exploration", "Safety monitors (master unchanged, no statement to decoys, never self, reset only when allowed) + bounded convergence from perturbed states.", "7/C10"),
  "C11": ("exploration", "Mark/clear/active-list/promotion monitors over recovery scenarios.", "7/C11"),
  "C15": ("exploration", "Operation-by-operation refinement of real zkDCS against a reference tree, admissibility under faults, ephemeral lifetime.", "7/C15"),
- "C16": ("exploration", "Monitors on CHANGE SOURCE at cascade servers, never-in-quorum, termination watchdog.", "7/C16"),
- "C17": ("exploration", "Per-pass policy constraints on offline_mode statements.", "7/C17"),
- "C18": ("exploration", "Hysteresis table vs read_only statements at the master.", "7/C18"),
- "C19": ("exploration", "Registry/settings monitors after each sync and at promotion events.", "7/C19"),
- "C20": ("exploration", "Process death, goroutine/connection growth in steady runs, race-detector build of the same simulation.", "7/C20"),
+ "C16": ("exploration", "Stream-from maps incl. chains, cycles, self and unregistered references with ancestor health scripts; set-valued reference resolution over the pass window and GTID containment at every re-pointing of a cascade server, never self/active/promoted/counted, final convergence, termination watchdog.", "7/C16, 15.2"),
+ "C17": ("exploration", "Zone layouts, caps and scripted lag around both thresholds (custom lag query), broken replication, resetup status ages; per-pass policy constraints on every offline_mode statement (thresholds, hysteresis, zone cap with same-pass accumulation, resetup gating, broken-rate limit, master online).", "7/C17, 15.2"),
+ "C18": ("exploration", "Disk usage scripts for master and semi-sync replicas through the three zones; reference hysteresis table on the manager's own health reads vs read_only statements at the master and the low-space flag.", "7/C18, 15.2"),
+ "C19": ("exploration", "Registries, lag scripts around both marks, equal/unequal settings, CLI enable/disable, failing settings calls, switchovers and failovers; at most one relaxed registered replica after every undisturbed sync, restore-before-drop at every deregistration, nothing frozen or promoted while registered or relaxed.", "7/C19, 15.2"),
+ "C20": ("exploration", "Long chaos runs incl. tool-only tree contents: process death (panic signature), non-termination watchdog, goroutine/connection growth in steady runs, race-detector build of the same simulation with the controller's happens-before edges cut.", "7/C20, 15.2"),
 }
 na = {
  "C12": "pure arithmetic on two integers (min(n/2,w), max(n-..,1)): no schedule, clock, fault or second party for a simulator to decide; its consequence is observed end-to-end by C01/C02 with the quorum recomputed by the harness",
